@@ -101,46 +101,67 @@ def r1_optional_fields(R) -> None:
 
 
 def r2_model_to_dataframe(R) -> None:
+    """Read on the gated value of what the function returns: DataFrame({k: model[k] for k in <names>}, index=model.span)
+    plus conditional item stores for the flags."""
+    from fsa.gated import SymExec, canon, item_layers
+    from fsa.match import nnf_atoms
     q = f'{T}.model_to_dataframe'
     f = Fn(R, q)
-    frames = [n for n in f.cfg.nodes if n.kind == 'stmt' and isinstance(n.ast, ast.Assign) and is_call(n.ast.value, 'DataFrame')]
-    if not R.require(q, len(frames), 'df = DataFrame({k: model[k] for k in names}, index=model.span)', fi=f.fi, pred=lambda x: is_call(x, 'DataFrame')):
-        return
-    c = frames[0].ast.value
-    dc = c.args[0] if c.args else None
-    ok = isinstance(dc, ast.DictComp) and text(dc.key) == text(dc.generators[0].target) and text(dc.value) == f'model[{text(dc.key)}]' \
-        and text(dc.generators[0].iter) == 'names' and not dc.generators[0].ifs
-    R.check(ok, q, 'per-variable:' + (text(dc)[:60] if dc is not None else '?'), 'the frame is built variable by variable (dtypes preserved), in model order',
-            f'`{text(dc)[:70] if dc is not None else text(c)[:70]}` does not build one column per variable from model[k] (stacking `values` would lose dtypes)',
-            where=f.where(frames[0]))
-    ix = kwarg(c, 'index')
-    R.check(ix is not None and text(ix) == 'model.span', q, 'index-span', 'rows are indexed by the span', f'index is `{text(ix) if ix is not None else "<default>"}`', where=f.where(frames[0]))
-    # names and the underscore filter
-    ds = f.assigns_to('names')
-    plain = [d for d in ds if text(d.ast.value) == 'model.names']
-    filt = [d for d in ds if isinstance(d.ast.value, ast.ListComp)]
-    R.check(len(plain) == 1, q, 'names-source', 'columns follow model.names', '`names = model.names` not found', where=f.fi.where)
-    ok = False
-    if filt:
-        lc = filt[0].ast.value
-        g = [(text(a), truth) for (a, truth, _t) in f.guard_atoms(filt[0].id)]
-        cond_ok = ('include_internal', False) in g or ('not include_internal', True) in g
-        v = text(lc.generators[0].target)
-        ok = cond_ok and text(lc.generators[0].iter) == 'model.names' and len(lc.generators[0].ifs) == 1 and text(lc.generators[0].ifs[0]) == f"not {v}.startswith('_')" \
-            and text(lc.elt) == v
-    R.check(ok, q, 'internal-filter', 'underscore-prefixed variables are dropped exactly when include_internal is false',
-            'the underscore filter is missing, inverted or not conditional on `not include_internal`', where=f.fi.where)
-    for col in ('status', 'iterations'):
-        st = [n for n in f.cfg.nodes if n.kind == 'stmt' and isinstance(n.ast, ast.Assign) and isinstance(n.ast.targets[0], ast.Subscript)
-              and text(n.ast.targets[0].value) == 'df' and is_const(n.ast.targets[0].slice, col)]
-        if not R.require(q, len(st), f"df['{col}'] = model.{col}", fi=f.fi, pred=lambda x: isinstance(x, ast.Subscript) and text(x.value) == 'df'):
-            continue
-        n = st[0]
-        g = [(text(a), truth) for (a, truth, _t) in f.guard_atoms(n.id)]
-        R.check(text(n.ast.value) == f'model.{col}' and g == [(col, True)], q, f'column:{col}:{text(n.ast.value)}:{g}', f'the {col} column is the series of that name, added under its flag',
-                f"`{text(n.ast)}` under {g}: expected `df['{col}'] = model.{col}` under `if {col}:`", where=f.where(n))
+    model = (f.fi.params() + ['model'])[0]
     rets = f.returns()
-    R.check(len(rets) == 1 and text(rets[0].ast.value) == 'df', q, 'returns-frame', 'the frame is returned', 'model_to_dataframe does not return df', where=f.fi.where)
+    if not R.require(q, len(rets), 'return of the frame', fi=f.fi, pred=lambda x: isinstance(x, ast.Return)):
+        return
+    R.check(len(rets) == 1, q, 'returns-frame', 'the frame is returned', 'model_to_dataframe has several returns', where=f.fi.where)
+    se = SymExec(f.fi.node)
+    v = canon(se.value(rets[0].ast, rets[0].ast.value))
+    base, items = item_layers(v)
+    if not is_call(base, 'DataFrame', 'pandas.DataFrame', 'pd.DataFrame'):
+        raise Unsupported(f'{q}: the returned object starts as `{text(base)[:70]}`, not a DataFrame(...)')
+    c = base
+    dc = c.args[0] if c.args else kwarg(c, 'data')
+    names_expr = None
+    ok = isinstance(dc, ast.DictComp) and len(dc.generators) == 1 and text(dc.key) == text(dc.generators[0].target) and text(dc.value) == f'{model}[{text(dc.key)}]' \
+        and not dc.generators[0].ifs
+    if ok:
+        names_expr = dc.generators[0].iter
+    R.check(ok, q, 'per-variable:' + (text(dc)[:60] if dc is not None else '?'), 'the frame is built variable by variable (dtypes preserved), in model order',
+            f'`{text(dc)[:70] if dc is not None else text(c)[:70]}` does not build one column per variable from {model}[k] (stacking `values` would lose dtypes)',
+            where=f.where(rets[0]))
+    ix = kwarg(c, 'index')
+    R.check(ix is not None and text(ix) == f'{model}.span', q, 'index-span', 'rows are indexed by the span', f'index is `{text(ix) if ix is not None else "<default>"}`', where=f.where(rets[0]))
+    # names and the underscore filter
+    if names_expr is not None:
+        ne = names_expr
+        plain = filt = None
+        if isinstance(ne, ast.IfExp) and text(ne.test) == 'include_internal':
+            plain, filt = ne.body, ne.orelse
+        elif text(ne) == f'{model}.names':
+            plain = ne
+        else:
+            filt = ne
+        R.check(plain is not None and text(plain) == f'{model}.names', q, 'names-source', 'columns follow model.names',
+                f'with include_internal the columns are `{text(plain)[:60] if plain is not None else "<filtered anyway>"}`, not {model}.names', where=f.fi.where)
+        okf = False
+        if filt is not None and isinstance(ne, ast.IfExp) and isinstance(filt, ast.ListComp) and len(filt.generators) == 1:
+            g = filt.generators[0]
+            vv = text(g.target)
+            conds = [(text(a_), tr) for c_ in g.ifs for (a_, tr) in nnf_atoms(c_, True)]
+            okf = text(g.iter) == f'{model}.names' and text(filt.elt) == vv and conds == [(f"{vv}.startswith('_')", False)]
+        R.check(okf, q, 'internal-filter', 'underscore-prefixed variables are dropped exactly when include_internal is false',
+                'the underscore filter is missing, inverted or not conditional on `not include_internal`', where=f.fi.where)
+    got = {}
+    for (k, val, facts) in items:
+        if isinstance(k, ast.Constant):
+            got[k.value] = (text(val), [(text(a_), tr) for (a_, tr) in facts])
+    for col in ('status', 'iterations'):
+        if col not in got:
+            R.require(q, 0, f"df['{col}'] = model.{col}", fi=f.fi, pred=lambda x: isinstance(x, ast.Subscript) and isinstance(x.ctx, ast.Store))
+            continue
+        val, facts = got[col]
+        R.check(val == f'{model}.{col}' and facts == [(col, True)], q, f'column:{col}:{val}:{facts}', f'the {col} column is the series of that name, added under its flag',
+                f"the `{col}` column receives `{val}` under {facts}: expected `{model}.{col}` under `if {col}:`", where=f.fi.where)
+    extra = sorted(k for k in got if k not in ('status', 'iterations'))
+    R.check(not extra, q, f'extra-columns:{extra}', 'no other column is added', f'columns {extra} are added to the frame', where=f.fi.where)
     # container export
     cq = 'fsic.core.containers.VectorContainer.to_dataframe'
     cf = R.repo.func(cq)
